@@ -45,8 +45,18 @@ SeqOK(r) ==
   /\ \A i \in 1..Len(r.sent) : Carriable(r.mode, r.sent[i]) => r.oks[i]
   /\ r.wire = AnnBytes(r.mode) \o Flat([i \in 1..Len(r.sent) |-> IF r.oks[i] THEN SeqFrame(r.mode, i, r.sent[i]) ELSE <<>>])
 
+\* a link slower than the reader's patience (the stream stands still for longer than the read timeout): the reader may give
+\* up with an error at that point - or deliver everything if it waits on -, but what it delivers is what was sent
+SlowOK(r) ==
+  LET e == ExpectedRead(r) IN
+  \E n \in 0..Len(e) :
+    /\ Len(r.got) = n + 1
+    /\ [i \in 1..n |-> Proj(r.got[i])] = SubSeq(e, 1, n)
+    /\ IF n = Len(e) THEN r.got[n + 1].k \in {"eof", "err"} ELSE r.got[n + 1].k = "err"
+
 RunOK(r) ==
   IF r.op = "writeseq" THEN SeqOK(r) ELSE
+  IF r.op = "read" /\ r.slow THEN SlowOK(r) ELSE
   IF r.op = "read"
     THEN LET e == ExpectedRead(r) IN
          /\ Len(r.got) = Len(e) + 1
@@ -61,6 +71,7 @@ Kind(r) ==
   ELSE IF r.op = "writeseq" THEN (IF \E i \in 1..Len(r.got) : r.got[i].k = "panic" THEN "panic" ELSE "write-sequence-framing")
   ELSE IF \E i \in 1..Len(r.got) : r.got[i].k = "panic" THEN "panic"
   ELSE IF \E i \in 1..Len(r.got) : r.got[i].k = "code" /\ i <= Len(r.sent) /\ r.codes[i] # "" /\ r.got[i].v # r.codes[i] THEN "wrong-code"
+  ELSE IF r.slow THEN "wrong-delivery-over-a-slow-link"
   ELSE IF r.close = "boundary" /\ r.got # <<>> /\ r.got[Len(r.got)].k = "err" THEN "error-on-clean-stream"
   ELSE "wrong-delivery"
 
